@@ -23,6 +23,7 @@ type Frame struct {
 	entryVars map[string]Value
 	nilChecked map[ssa.Value]bool
 	resultNames []string
+	noSafety bool // inlined callee without a contract: its own safety is not the caller's obligation
 }
 
 type retRec struct {
@@ -42,6 +43,14 @@ func (fc *FuncCtx) posStr(p token.Pos) string {
 // oblige records a proof obligation at the current point.
 func (fc *FuncCtx) oblige(fr *Frame, st *State, kind, label string, goal string, pos token.Pos, desc string) *Obligation {
 	if st.dead {
+		return nil
+	}
+	if fr.noSafety && (strings.HasPrefix(kind, "safety.") || strings.HasPrefix(kind, "lock.")) {
+		fc.u.Assumptions["safety of callees executed in-line without a contract is not an obligation of the caller (a panic there ends the caller's path)"] = true
+		return nil
+	}
+	if fr.con != nil && fr.con.Flags["nosafety"] != "" && strings.HasPrefix(kind, "safety.") {
+		fc.u.Assumptions["safety sweep (nil/index/type-assertion/overflow) is switched off for "+fr.prefix+" (`flag nosafety`): its contract only carries call-site obligations"] = true
 		return nil
 	}
 	base := fr.prefix + "/" + kind
@@ -747,7 +756,18 @@ func (fc *FuncCtx) val(fr *Frame, st *State, v ssa.Value) Value {
 	case *ssa.Const:
 		return fc.constValue(x)
 	case *ssa.Global:
-		return PlaceV{Kind: "global", Global: x, Typ: x.Type().(*types.Pointer).Elem(), Root: x.Type().(*types.Pointer).Elem()}
+		gt := x.Type().(*types.Pointer).Elem()
+		if _, isArr := gt.Underlying().(*types.Array); isArr {
+			// a package-level array is an object at a fixed, pre-allocated reference
+			name := qsym("gref!" + globalKey(x))
+			if !fc.u.declared[name] {
+				fc.u.declared[name] = true
+				fc.u.emit("(declare-fun " + name + " () Int)")
+				fc.u.emit("(assert (and (< 0 " + name + ") (<= " + name + " alloc0)))")
+			}
+			return fc.objPlace(name, gt)
+		}
+		return PlaceV{Kind: "global", Global: x, Typ: gt, Root: gt}
 	case *ssa.Function:
 		return ClosureV{Fn: x, ID: fc.funcID(x)}
 	case *ssa.Builtin:
@@ -819,6 +839,10 @@ func (fc *FuncCtx) execInstr(fr *Frame, st *State, ins ssa.Instruction) {
 	case *ssa.Alloc:
 		et := x.Type().(*types.Pointer).Elem()
 		_, isArr := et.Underlying().(*types.Array)
+		if isArr && !x.Heap && !arrayElementsUsed(x) {
+			// an array variable that is only copied as a whole: an opaque value
+			isArr = false
+		}
 		if x.Heap || isArr {
 			ref := fc.newRef(st, "new."+clip(x.Comment, 12))
 			pl := fc.objPlace(ref, et)
@@ -1062,6 +1086,19 @@ func (fc *FuncCtx) ghostUpdatedIn(fr *Frame, li *loopInfo, name string) bool {
 					}
 				}
 			}
+		}
+	}
+	return false
+}
+
+func arrayElementsUsed(a *ssa.Alloc) bool {
+	if a.Referrers() == nil {
+		return true
+	}
+	for _, r := range *a.Referrers() {
+		switch r.(type) {
+		case *ssa.IndexAddr, *ssa.Slice:
+			return true
 		}
 	}
 	return false
